@@ -177,6 +177,10 @@ class Model:
                 c += text(x)
             else:
                 c += "~"
+        for wpath in spec.ifcreate_raw:
+            if self.exists(wpath):
+                return FAIL   # redo-ifcreate on an existing path is an error
+            c += "~"
         if spec.fail:
             fv = dep(spec.fail)
             if fv is FAIL or fv is None:
@@ -202,6 +206,8 @@ class Model:
             groups.append(("sel", spec.sel))
         for wpath in spec.ifcreate:
             groups.append(("w", [wpath]))
+        for wpath in spec.ifcreate_raw:
+            groups.append(("wraw", [wpath]))
         if spec.fail:
             groups.append(("m", [spec.fail]))
             groups.append(("failcheck", spec.fail))
@@ -273,6 +279,8 @@ class RefBuild:
             return self.NO
         if m.failed.get(d) or not m.built.get(d):
             return self.YES
+        if getattr(self, "assume_csum_changes", False):
+            return nr
         if m.kind_at_build.get(d) == "csum" and d in m.digest:
             # a checksummed target that re-runs changes for its dependents only if the checksum differs
             v = m.evaluate(d)
@@ -517,6 +525,14 @@ class RefBuild:
                         newseen[wpath] = ("m", m.ver.get(wpath, 0))
                     else:
                         newseen[wpath] = ("c", None)
+                if not okay:
+                    break
+            elif kind == "wraw":
+                for wpath in payload:
+                    if m.exists(wpath):
+                        okay = False
+                        break
+                    newseen[wpath] = ("c", None)
                 if not okay:
                     break
             elif kind == "failcheck":
